@@ -23,7 +23,7 @@ SRC = 'src/pjplan'
 FILES = {
     'task.py': ['C18', 'C20', 'C16', 'C10', 'C13', 'C12'],          # C16 run = all Engine A properties (VF_ALL_PROPS)
     'wbs.py': ['C12', 'C10', 'C16', 'C06', 'C13'],
-    'schedule.py': ['C08', 'C09', 'C14', 'C04', 'C03', 'C02', 'C07', 'C06', 'C20'],
+    'schedule.py': ['C08', 'C09', 'C04', 'C02', 'C07', 'C14', 'C03'],
     'calendar.py': ['C17', 'C03', 'C14'],
     'resource.py': ['C17', 'C14', 'C03'],
     'alg/critical_path.py': ['C12'],
